@@ -62,7 +62,7 @@ func checkC03(r *Run) {
 				if cc == nil || cc.IsInvoke() || cc.StaticCallee() != nil {
 					return
 				}
-				ld, ok := cc.Value.(*ssa.UnOp)
+				ld, ok := c.ResolveAt(cc.Value, in).(*ssa.UnOp) // the task may travel through a result variable of a dequeue helper
 				if !ok || ld.Op != token.MUL {
 					return
 				}
